@@ -1698,7 +1698,12 @@ std::string Generator::GeneratorImpl::generateCode(const AnalyserEquationAstPtr 
 
         break;
     case AnalyserEquationAst::Type::CI:
-        code = generateVariableNameCode(ast->variable(), ast->parent()->type() != AnalyserEquationAst::Type::DIFF);
+        // Note: a variable on its own (e.g., a bare ci element as a child of
+        //       a math element) has no parent.
+
+        code = generateVariableNameCode(ast->variable(),
+                                        (ast->parent() == nullptr)
+                                            || (ast->parent()->type() != AnalyserEquationAst::Type::DIFF));
 
         break;
     case AnalyserEquationAst::Type::CN:
